@@ -320,6 +320,13 @@ func genC07(cs *CaseSet, rng *Rng, tier string, dir string) {
 		os.WriteFile(filepath.Join(env.FileRoot, "m.txt"), []byte("inside m"), 0644)
 		os.MkdirAll(filepath.Join(env.FileRoot, "sub", "deeper"), 0755)
 		os.WriteFile(filepath.Join(env.FileRoot, "sub", "inner.txt"), []byte("inner"), 0644)
+		// the two top-level files carry side files (info fork with a comment, resource fork, partial data): a request
+		// that moves or renames them must not carry any of those out of the root either
+		for _, f := range []string{"file.txt", "m.txt"} {
+			os.WriteFile(filepath.Join(env.FileRoot, ".info_"+f), c11InfoFork("TEXT", "ttxt", []byte(f), []byte("a comment")), 0644)
+			os.WriteFile(filepath.Join(env.FileRoot, ".rsrc_"+f), []byte("resource fork"), 0644)
+		}
+		os.WriteFile(filepath.Join(env.FileRoot, "m.txt.incomplete"), []byte("partial"), 0644)
 	}
 	call := func(h func(*hotline.ClientConn, *hotline.Transaction) []hotline.Transaction, typ hotline.TranType, fields ...hotline.Field) []hotline.Transaction {
 		t := hotline.NewTransaction(typ, admin.ID, fields...)
